@@ -4,7 +4,8 @@ CONSTANTS
     MaxParallel = 8
     Hedging = TRUE
     MaxHedges = 0
-    Kinds = {"ok", "err", "short", "whole200"}
+    Kinds = {"ok", "err"}
+    HedgeKinds = {"ok", "err"}
     Probes = {"parallel"}
     Fixed = TRUE
     Eager = TRUE
